@@ -269,17 +269,146 @@ fn shapes(m: &Model, ctx: &mut Ctx) {
             }
         }
     }
+
+    // type_to_tokens: the JER shape of each type kind (nested anonymous types go through this fn)
+    if let Some(f) = anchor_fn(m, ctx, "C18.shape", None, "type_to_tokens", Some("typescript")) {
+        let inl = inline_all(m, &[]);
+        let hook2 = |_: &Evaluator, name: &str, _args: &[Val]| -> Option<Result<Val, String>> {
+            match name {
+                "is_fixed_size" => Some(Ok(Val::Bool(false))),
+                _ => None,
+            }
+        };
+        let ev2 = Evaluator { consts: &consts, call_hook: &hook2, inline: Some(&inl) };
+        let p = f.sig.inputs.iter().filter_map(|a| match a { syn::FnArg::Typed(t) => Some(tok(&t.pat)), _ => None }).next().unwrap_or("ty".into());
+        let unit = |n: &str| Val::Ctor(n.into(), vec![Val::Opaque("payload".into())], BTreeMap::new());
+        let enumerated = |names: &[&str]| {
+            let mut e = BTreeMap::new();
+            e.insert("members".to_string(), Val::List(names.iter().enumerate().map(|(i, n)| {
+                let mut f = BTreeMap::new();
+                f.insert("name".to_string(), Val::Str(n.to_string()));
+                f.insert("index".to_string(), Val::int(i as i128));
+                f.insert("description".to_string(), Val::none());
+                Val::Ctor("Enumeral".into(), vec![], f)
+            }).collect()));
+            e.insert("extensible".to_string(), Val::none());
+            Val::Ctor("Enumerated".into(), vec![Val::Ctor("Enumerated".into(), vec![], e)], BTreeMap::new())
+        };
+        let elsewhere = |id: &str| {
+            let mut e = BTreeMap::new();
+            e.insert("identifier".to_string(), Val::Str(id.into()));
+            e.insert("parent".to_string(), Val::none());
+            e.insert("constraints".to_string(), Val::List(vec![]));
+            Val::Ctor("ElsewhereDeclaredType".into(), vec![Val::Ctor("DeclarationElsewhere".into(), vec![], e)], BTreeMap::new())
+        };
+        let seq_of = |kind: &str, el: Val| {
+            let mut e = BTreeMap::new();
+            e.insert("element_type".to_string(), el);
+            e.insert("constraints".to_string(), Val::List(vec![]));
+            e.insert("is_recursive".to_string(), Val::Bool(false));
+            Val::Ctor(kind.into(), vec![Val::Ctor("SequenceOrSetOf".into(), vec![], e)], BTreeMap::new())
+        };
+        let choice = |names: &[&str]| {
+            let mut c = BTreeMap::new();
+            c.insert("options".to_string(), Val::List(names.iter().map(|n| {
+                let mut f = BTreeMap::new();
+                f.insert("name".to_string(), Val::Str(n.to_string()));
+                f.insert("ty".to_string(), Val::Ctor("Boolean".into(), vec![Val::Opaque("b".into())], BTreeMap::new()));
+                Val::Ctor("ChoiceOption".into(), vec![], f)
+            }).collect()));
+            c.insert("extensible".to_string(), Val::none());
+            Val::Ctor("Choice".into(), vec![Val::Ctor("Choice".into(), vec![], c)], BTreeMap::new())
+        };
+        let cases: Vec<(&str, Val, &str)> = vec![
+            ("NULL", Val::ctor("Null"), "null"),
+            ("BOOLEAN", unit("Boolean"), "boolean"),
+            ("INTEGER", unit("Integer"), "number"),
+            ("REAL", unit("Real"), "number"),
+            ("OCTET STRING", unit("OctetString"), "string"),
+            ("character string", unit("CharacterString"), "string"),
+            ("OBJECT IDENTIFIER", unit("ObjectIdentifier"), "string"),
+            ("UTCTime", unit("UTCTime"), "string"),
+            ("GeneralizedTime", unit("GeneralizedTime"), "string"),
+            ("BIT STRING (variable size)", unit("BitString"), "{value:string,length:number}"),
+            ("anonymous ENUMERATED { not-started, in-progress }", enumerated(&["not-started", "in-progress"]), "\"not-started\"|\"in-progress\""),
+            ("anonymous ENUMERATED { a }", enumerated(&["a"]), "\"a\""),
+            ("type reference My-Type", elsewhere("My-Type"), "My_Type"),
+            ("SEQUENCE OF BOOLEAN", seq_of("SequenceOf", unit("Boolean")), "boolean[]"),
+            ("SET OF My-Type", seq_of("SetOf", elsewhere("My-Type")), "My_Type[]"),
+            ("SEQUENCE OF ENUMERATED { x-y, z }", seq_of("SequenceOf", enumerated(&["x-y", "z"])), "(\"x-y\"|\"z\")[]"),
+            ("SEQUENCE OF SEQUENCE OF BOOLEAN", seq_of("SequenceOf", seq_of("SequenceOf", unit("Boolean"))), "boolean[][]"),
+            ("anonymous CHOICE { a-b BOOLEAN, c BOOLEAN }", choice(&["a-b", "c"]), "{a_b:boolean}|{c:boolean}"),
+            ("SET OF CHOICE { a BOOLEAN, b BOOLEAN }", seq_of("SetOf", choice(&["a", "b"])), "({a:boolean}|{b:boolean})[]"),
+        ];
+        for (what, v, want) in cases {
+            ctx.oblige("C18.shape", &format!("type_to_tokens:{}", what), true);
+            let mut env = Env::new();
+            env.insert(p.clone(), v);
+            match ev2.eval_fn_body(&f.block, &mut env) {
+                Ok(Val::Str(s)) => {
+                    let compact: String = s.chars().filter(|c| !c.is_whitespace()).collect();
+                    if compact != want {
+                        ctx.violate("C18.shape", &format!("type_to_tokens:{}", what), &f.file, f.line,
+                            &format!("a nested {} is rendered `{}`; its JER shape is `{}` (enumeral names are the original ones, names of types and keys are hyphen-mangled, unions are parenthesised under [])", what, compact, want));
+                    }
+                }
+                Ok(o) => ctx.fail_closed("C18.shape", &format!("[type_to_tokens {}]: {}", what, o.show())),
+                Err(e) => ctx.fail_closed("C18.shape", &format!("[type_to_tokens {}]: {}", what, e)),
+            }
+        }
+    }
     // enum members: mangled = "original"
     if let Some(f) = anchor_fn(m, ctx, "C18.shape", Some("Typescript"), "generate_enumerated", None) {
-        ctx.oblige("C18.shape", "enum-members", true);
-        let b = tok(&f.block);
-        let ok = b.contains("to_jer_identifier(&en.name),en.name,") && literals(&f.block).iter().any(|(t, is_fmt, _)| *is_fmt && t.trim_start().starts_with("{} = \"{}\","));
-        if !ok {
-            ctx.violate("C18.shape", "enum-members", &f.file, f.line, "enum members must be rendered `<mangled> = \"<original enumeral name>\"`");
-        }
-        ctx.oblige("C18.shape", "enum-order", true);
-        if !b.contains("enumerated.members.into_iter().fold(String::new(),") {
-            ctx.violate("C18.shape", "enum-order", &f.file, f.line, "every enumeral must be rendered once, in order");
+        ctx.func(&f.key);
+        let hook3 = |_: &Evaluator, name: &str, args: &[Val]| -> Option<Result<Val, String>> {
+            match name {
+                "to_jer_identifier" => Some(Ok(match args.first() { Some(Val::Str(s)) => Val::Str(s.replace('-', "_")), _ => Val::Str("id".into()) })),
+                "format_comments" => Some(Ok(Val::Str(String::new()))),
+                "enumerated_template" => Some(Ok(Val::Tuple(args.to_vec()))),
+                _ => None,
+            }
+        };
+        let ev3 = Evaluator { consts: &consts, call_hook: &hook3, inline: None };
+        for names in [vec!["not-started", "done"], vec!["a"], vec!["x", "y-z", "w"]] {
+            let key = format!("enum-members:{:?}", names);
+            ctx.oblige("C18.shape", &key, true);
+            let mut e = BTreeMap::new();
+            e.insert("members".to_string(), Val::List(names.iter().enumerate().map(|(i, n)| {
+                let mut f = BTreeMap::new();
+                f.insert("name".to_string(), Val::Str(n.to_string()));
+                f.insert("index".to_string(), Val::int(i as i128));
+                f.insert("description".to_string(), Val::none());
+                Val::Ctor("Enumeral".into(), vec![], f)
+            }).collect()));
+            e.insert("extensible".to_string(), Val::none());
+            let mut t = BTreeMap::new();
+            t.insert("ty".to_string(), Val::Ctor("Enumerated".into(), vec![Val::Ctor("Enumerated".into(), vec![], e)], BTreeMap::new()));
+            t.insert("name".to_string(), Val::Str("My-Enum".into()));
+            t.insert("comments".to_string(), Val::Str(String::new()));
+            let p = f.sig.inputs.iter().filter_map(|a| match a { syn::FnArg::Typed(t) => Some(tok(&t.pat)), _ => None }).next().unwrap_or("tld".into());
+            let mut env = Env::new();
+            env.insert(p, Val::Ctor("ToplevelTypeDefinition".into(), vec![], t));
+            let want: String = names.iter().map(|n| format!("{}=\"{}\",", n.replace('-', "_"), n)).collect();
+            match ev3.eval_fn_body(&f.block, &mut env) {
+                Ok(Val::Ctor(ok, pos, _)) if ok == "Ok" && matches!(pos.first(), Some(Val::Tuple(a)) if a.len() == 3) => {
+                    let Some(Val::Tuple(a)) = pos.first() else { unreachable!() };
+                    let name_ok = matches!(&a[1], Val::Str(s) if s == "My_Enum");
+                    if !name_ok {
+                        ctx.violate("C18.one", "enum-declared-name", &f.file, f.line, &format!("[{}] the enum must be declared under the hyphen-mangled assignment name `My_Enum`, got {}", key, a[1].show()));
+                    }
+                    match &a[2] {
+                        Val::Str(s) => {
+                            let compact: String = s.chars().filter(|c| !c.is_whitespace()).collect();
+                            if compact != want {
+                                ctx.violate("C18.shape", "enum-members", &f.file, f.line, &format!("[{}] enum members are rendered `{}`; they must be `<mangled> = \"<original enumeral name>\"` once each, in order: `{}`", key, compact, want));
+                            }
+                        }
+                        o => ctx.fail_closed("C18.shape", &format!("[{}]: member list is {}", key, o.show())),
+                    }
+                }
+                Ok(o) => ctx.fail_closed("C18.shape", &format!("[{}]: {}", key, o.show())),
+                Err(e) => ctx.fail_closed("C18.shape", &format!("[{}]: {}", key, e)),
+            }
         }
     }
     // arrays
